@@ -195,6 +195,7 @@ def baseline(si, di):
 
 
 def _make_fns(threads, parent):
+    common.reset_process_state()
     stmts = statements()
 
     def mk(work):
